@@ -107,3 +107,46 @@ Proof. vm_compute. eexists. split; [reflexivity|]. repeat split. Qed.
 Print Assumptions fresh_entry_survives_lookup_action.
 Print Assumptions fresh_entry_served_across_lookups.
 Print Assumptions purge_removes_only_expired.
+
+(* ------------------------------------------------------------------ *)
+(** * A hit is a use (the LRU clause of C07 under concurrency)
+
+   The recency update of a hit, whenever it runs relative to the other threads' critical sections,
+   moves the key to the back of the queue and leaves the relative order of all other keys alone;
+   so the key that was looked up is not the front (the next FIFO/LRU victim) as long as any other
+   key is queued.  (The seeded change C07-G made this update best-effort: skipped when another
+   thread held the queue lock.) *)
+
+Theorem touch_moves_to_back : forall c now s k,
+    mem k (st_store s) = true ->
+    st_queue (astep c now s (A_touch k)) = push_back k (remove_all k (st_queue s)).
+Proof. intros c now s k Hm. cbn [astep]. rewrite Hm. reflexivity. Qed.
+
+Lemma remove_all_app : forall k l1 l2, remove_all k (l1 ++ l2) = remove_all k l1 ++ remove_all k l2.
+Proof. intros k l1 l2. rewrite !remove_all_filter. apply filter_app. Qed.
+
+Lemma remove_all_idem : forall k l, remove_all k (remove_all k l) = remove_all k l.
+Proof. intros k l. apply remove_all_notin. rewrite In_remove_all. tauto. Qed.
+
+Theorem touch_keeps_the_order_of_the_others : forall c now s k,
+    remove_all k (st_queue (astep c now s (A_touch k))) = remove_all k (st_queue s).
+Proof.
+  intros c now s k. cbn [astep]. destruct (mem k (st_store s)); [|reflexivity].
+  cbn [st_queue]. unfold push_back. rewrite remove_all_app, remove_all_idem.
+  cbn [remove_all]. rewrite N.eqb_refl. apply app_nil_r.
+Qed.
+
+Theorem touched_key_is_not_the_next_victim : forall c now s k k',
+    mem k (st_store s) = true -> In k' (st_queue s) -> k' <> k ->
+    hd_error (st_queue (astep c now s (A_touch k))) <> Some k.
+Proof.
+  intros c now s k k' Hm Hin Hne. rewrite touch_moves_to_back by exact Hm. unfold push_back.
+  assert (Hin' : In k' (remove_all k (st_queue s))) by (apply In_remove_all; tauto).
+  destruct (remove_all k (st_queue s)) as [|h t] eqn:E; [destruct Hin'|].
+  cbn [app hd_error]. intro H. injection H as H. subst h.
+  assert (Hk : In k (remove_all k (st_queue s))) by (rewrite E; left; reflexivity).
+  apply In_remove_all in Hk. tauto.
+Qed.
+
+Print Assumptions touch_keeps_the_order_of_the_others.
+Print Assumptions touched_key_is_not_the_next_victim.
